@@ -51,6 +51,10 @@ pub fn add_styles(ws: &mut Worksheet) {
     ws.get_cell_mut("C2").set_style(style_fill_numfmt());
     ws.get_cell_mut("E5").set_style(style_border_align()); // styled empty cell
     ws.get_cell_mut("A3").set_style(style_bold_red()); // same style twice
+    // two CUSTOM number formats (ids beyond the built-in ones), the second used twice
+    for (addr, code) in [("B2", "0.000\" kg\""), ("C1", "0.0\" m\""), ("D2", "0.0\" m\"")] {
+        ws.get_cell_mut(addr).get_style_mut().get_numbering_format_mut().set_format_code(code);
+    }
     ws.get_row_dimension_mut(&4).set_height(30.0);
     ws.get_column_dimension_mut("C").set_width(20.0);
 }
